@@ -12,9 +12,25 @@
 #define BOOST_MSM_BACK_HISTORY_POLICIES_H
 
 #include <boost/mpl/contains.hpp>
+#include <boost/utility/enable_if.hpp>
+#include <boost/msm/back/traits.hpp>
 
 namespace boost { namespace msm { namespace back
 {
+
+// On explicit entry, fork and entry point entry the entering event reaches the
+// history policy wrapped in a direct_entry_event. The configured events are to be
+// compared with the event that triggered the transition.
+template <class Event, class Enable = void>
+struct get_history_event
+{
+    typedef Event type;
+};
+template <class Event>
+struct get_history_event<Event, typename ::boost::enable_if<typename has_direct_entry<Event>::type>::type>
+{
+    typedef typename Event::contained_event type;
+};
 
 // policy classes
 
@@ -136,7 +152,7 @@ public:
     template <class Event>
     const int* history_entry(Event const&)
     {
-        if ( ::boost::mpl::contains<Events,Event>::value)
+        if ( ::boost::mpl::contains<Events,typename get_history_event<Event>::type>::value)
         {
             return m_currentStates;
         }
